@@ -9,6 +9,7 @@ import Bgpfu.Drive.Builders
 import Bgpfu.Drive.LogTable
 import Bgpfu.Drive.Irr
 import Bgpfu.Drive.Fetch
+import Bgpfu.Drive.FetchInstalled
 /-! `modeld`: one request per line on stdin, one answer per line on stdout.
 A line is `<op> <arg>…` separated by single spaces; unknown ops / malformed args answer `bad-op`. -/
 
@@ -26,6 +27,7 @@ def dispatch (ws : List String) : String :=
     | "logs" :: rest => LogTable.drive rest
     | "irr" :: rest => Irr.drive rest
     | "fetch" :: rest => Xml.FetchDrive.drive rest
+    | "instev" :: rest => Xml.InstDrive.drive rest
     | _ => none
   r.getD "bad-op"
 
